@@ -73,7 +73,7 @@ for p in props:
 m={"version":1,"setup_cmd":"./check --setup",
  "hooks":{"guard":"cargo feature `verif-hooks` of crate scale-typegen (off by default)",
   "enable":"the harness binary `mc` depends on scale-typegen with features=[\"verif-hooks\"]; `mc-plain` is the same harness without it",
-  "baseline_off_cmd":"./check --baseline-off","source_commits":["ee92f9c","b1e0961"],"add_only":True},
+  "baseline_off_cmd":"./check --baseline-off","source_commits":["ee92f9c","b1e0961","fea1992"],"add_only":True},
  "engines":[{"name":"mc","path":"/verif/mc","serves_properties":sorted(CLAIMED),"kind_free_text":"home-grown explicit-state explorer (level-synchronous parallel BFS with canonical-form de-duplication; DFS for tree-shaped spaces) driving the real scale-typegen / scale-typegen-description API"}],
  "checks":checks,"not_applicable":na,
  "notes":"All checks rebuild the harness against /repo's working tree and run the real code. Exit 0 = held on everything explored (KNOWN-FINDING lines possible); 1 = VIOLATION; 2 = machinery failure (never a verdict)."}
